@@ -7,6 +7,8 @@
 #![allow(dead_code)]
 mod bprops;
 mod c09;
+mod c15;
+mod c18;
 mod cargo;
 mod common;
 mod corpus;
@@ -31,6 +33,8 @@ pub fn dispatch(rc: &RunCtx) -> Outcome {
         "C09" => c09::run(rc),
         "C10" => vchecks::run_c10(rc),
         "C14" => vchecks::run_c14(rc),
+        "C15" => c15::run(rc),
+        "C18" => c18::run(rc),
         "C17" => vchecks::run_c17(rc),
         _ => usage(),
     }
